@@ -16,7 +16,7 @@ type mixOpts struct {
 	// message kinds (weights)
 	wSSO, wCallback, wSLO, wAttrQ, wMeta, wCert, wReady, wHealthz, wRaw int
 	// scheduler / environment steps (weights)
-	wResume, wFinish, wComplete, wUncomplete, wAdvance, wRestart, wDelReq, wRotate, wRotateMeta, wRereg, wDelSP, wPair, wUnhealthy, wCancel, wTear int
+	wResume, wFinish, wComplete, wUncomplete, wAdvance, wRestart, wDelReq, wRotate, wRotateMeta, wRereg, wDelSP, wPair, wUnhealthy, wCancel, wTear, wRandFail int
 
 	devPct        int // a protocol message deviates from conformance in one listed way
 	tamperPct     int // a protocol message is manipulated in flight
@@ -137,7 +137,7 @@ func (g G) planMix(prop string, o *mixOpts) *Plan {
 	}
 	nsp := len(p.World.SPs)
 	weights := []int{o.wSSO, o.wCallback, o.wSLO, o.wAttrQ, o.wMeta, o.wCert, o.wReady, o.wHealthz, o.wRaw,
-		o.wResume, o.wFinish, o.wComplete, o.wUncomplete, o.wAdvance, o.wRestart, o.wDelReq, o.wRotate, o.wRotateMeta, o.wRereg, o.wDelSP, o.wPair, o.wUnhealthy, o.wCancel, o.wTear}
+		o.wResume, o.wFinish, o.wComplete, o.wUncomplete, o.wAdvance, o.wRestart, o.wDelReq, o.wRotate, o.wRotateMeta, o.wRereg, o.wDelSP, o.wPair, o.wUnhealthy, o.wCancel, o.wTear, o.wRandFail}
 	sent := 0
 	for i := 0; i < n; i++ {
 		lab := fmt.Sprintf("s%d", i)
@@ -171,6 +171,14 @@ func (g G) planMix(prop string, o *mixOpts) *Plan {
 		if m != nil {
 			m.Replica = g.intn(lab+".rep", 3)
 			m.TLS = g.chance(lab+".tls", 35)
+			m.Proto = g.weighted(lab+".proto", 80, 10, 10)
+			if g.chance(lab+".rid", 15) {
+				// a gateway's correlation id: repeated on retries, often not an NCName
+				m.ReqIDHdr = g.pick(lab+".ridv", "req-1", "req-1", "Root=1-67891233-abcdef012345678912345678", "7f3e 0a", "a/b+c=", "0b9c2d6e-1f4a-4c57-9d3e-2a1b0c9d8e7f")
+			}
+			if m.Kind == "ready" {
+				m.Head = g.chance(lab+".head", 30)
+			}
 			if o.hostVariety {
 				g.drawHost(lab+".host", &p.World.IDP, g.intn(lab+".hosti", 3), m)
 			}
@@ -276,6 +284,8 @@ func (g G) planMix(prop string, o *mixOpts) *Plan {
 			p.Steps = append(p.Steps, Step{K: "cancel", Pick: g.intn(lab+".pick", 8)})
 		case 23:
 			p.Steps = append(p.Steps, Step{K: "mutate", Mut: "tearKey"})
+		case 24:
+			p.Steps = append(p.Steps, Step{K: "randfail", Pick: g.intn(lab+".n", 6)})
 		}
 	}
 	p.Recovery = g.chance("recovery", o.recoveryPct)
